@@ -2,11 +2,15 @@
 from __future__ import annotations
 
 import datetime as _dt
+import json
+import os
 import random
+import subprocess
+import sys
 import warnings
 
 from .. import gen, observe, probes
-from ..core import subseed
+from ..core import VERIF_DIR, subseed
 
 ID = "C12"
 TITLE = "record equality / hashing contract and scoped ignore configuration"
@@ -22,7 +26,15 @@ RULE = (
     "equality the statement leaves open (NaN, 0.0/-0.0, 1/True, differently spelled paths, same instant in another zone, hex "
     "case); 'dictorder' = dictlist values whose dicts have keys of mixed, mutually unorderable types (int / str / None / bytes / tuple / "
     "float), also nested in lists and dicts of the dict values, inserted in different orders in two otherwise identical records (plain, "
-    "held by record / record[] fields, as grouped members): must be equal, hash equal and be found in sets / dicts; 'coincident' = two different descriptors whose identifiers coincide by construction; 'ipfamily' = addresses of "
+    "held by record / record[] fields, as grouped members): must be equal, hash equal and be found in sets / dicts; 'mutate' = a plain "
+    "record, a holder of record / record[] values and a grouped record are hashed, then modified (through the grouped view, through a "
+    "member's own reference, in place through a held typed list / digest, through nested records) and compared with independently "
+    "rebuilt copies of the new state (equal, equal hash, set / dict lookup) and of the old state (unequal); 'envignore' = one worker "
+    "process per FLOW_RECORD_IGNORE value (unset, '_generated', '_source,_generated', a data field, empty) running a script of "
+    "explicit set_ignored_fields_for_comparison calls and (nested, failing) scopes incl. explicitly empty ones: a dictionary model "
+    "of the configuration in force (environment default until the first explicit call, explicit = exactly what was given, restored "
+    "after a scope) decides every probe; 'classcache' = equal descriptors re-created (directly / from a stream / as grouped members) "
+    "after the lru_cache of generated record classes overflowed; 'coincident' = two different descriptors whose identifiers coincide by construction; 'ipfamily' = addresses of "
     "different family / scope with the same integer; 'scope' = the ignore configuration installed by "
     "set_ignored_fields_for_comparison or the context manager (list / set / tuple / frozenset / dict / generator; nested scopes; an "
     "exception injected inside the scope in half of the cases).  Every pair is compared under the ignore configurations {} , "
@@ -64,6 +76,14 @@ KEY_COINCIDENT = "descriptor-identifier-coincidence-equal"
 KEY_IPFAMILY = "ipaddress-int-pack-loses-family"
 
 
+ENV_IGNORE = [None, "_generated", "_source,_generated", "n", ""]
+MUT_SHAPES = ("plain", "grouped", "holder")
+WORKER_TIMEOUT_S = 120
+KEY_ENV_EMPTY = "explicit-empty-ignore-falls-back-to-environment"
+KEY_STALE_HASH = "hash-stale-after-mutation"
+KEY_CLASS_IDENTITY = "equality-depends-on-record-class-identity"
+
+
 class _Boom(Exception):
     """injected inside an ignore scope"""
 
@@ -89,6 +109,20 @@ def teardown(ctx):
 
 def generate(ctx):
     idx = 0
+    for rep in range(ctx.scale(1, 2)):
+        if ctx.mine(idx + 3):  # one shard pays the ~1-2 s of overflowing the record-class cache
+            yield {"k": "classcache", "s": subseed("c12", ctx.seed, "classcache", rep)}
+        idx += 1
+    for rep in range(ctx.scale(2, 12)):
+        for e in range(len(ENV_IGNORE)):
+            if ctx.mine(idx):
+                yield {"k": "envignore", "env": e, "s": subseed("c12", ctx.seed, "envignore", e, rep)}
+            idx += 1
+    for shape in MUT_SHAPES:
+        for i in range(ctx.scale(30, 600)):
+            if ctx.mine(idx):
+                yield {"k": "mutate", "shape": shape, "s": subseed("c12", ctx.seed, "mutate", shape, i)}
+            idx += 1
     for i in range(ctx.scale(24, 400)):
         if ctx.mine(idx):
             yield {"k": "dictorder", "s": subseed("c12", ctx.seed, "dictorder", i)}
@@ -471,7 +505,8 @@ def compare(ctx, a, b, expect, info):
     if eq_ab and a_rec and b_rec:
         ctx.event("hash_consistency_checked")
         if ha != hb:
-            ctx.violation(classify_hash_difference(a, b), "equal records have different hashes", detail=dict(info, hash_a=ha, hash_b=hb))
+            hkey = KEY_STALE_HASH if key == KEY_STALE_HASH else classify_hash_difference(a, b)
+            ctx.violation(hkey, "equal records have different hashes", detail=dict(info, hash_a=ha, hash_b=hb))
         else:
             okm, res = _try(ctx, "set / dict membership", lambda: (a in {b}, {a: 1}.get(b), len({a, b})), info)
             ctx.event("ops:membership")
@@ -859,6 +894,305 @@ def run_dictorder(ctx, case):
     ctx.sample({"case": case, "a": describe(a), "b": describe(b)}, kind="dictorder")
 
 
+# ---- hash / == coherence across mutation ----------------------------------------------------------------
+def _mut_descs():
+    from flow.record import RecordDescriptor
+
+    m = RecordDescriptor("c12/mut_member", [("string", "s"), ("varint", "n"), ("string[]", "tags"), ("digest", "d"), ("uint16[]", "ports")])
+    o = RecordDescriptor("c12/mut_other", [("uint16", "p")])
+    h = RecordDescriptor("c12/mut_holder", [("record", "inner"), ("record[]", "inners"), ("string", "hs")])
+    return m, o, h
+
+
+def _mut_member(ms):
+    m, _, _ = _mut_descs()
+    return m(s=ms["s"], n=ms["n"], tags=list(ms["tags"]), d=(ms["md5"], None, None) if ms["md5"] else None, ports=list(ms["ports"]), _generated=STAMP)
+
+
+def mut_build(shape, st):
+    """fresh objects for model state `st` (plain data); every call is independent of every other"""
+    from flow.record import GroupedRecord
+
+    _, o, h = _mut_descs()
+    if shape == "plain":
+        return _mut_member(st["m"])
+    if shape == "grouped":
+        return GroupedRecord("c12/mutgroup", [_mut_member(st["m"]), o(p=st["p"], _generated=STAMP)])
+    return h(inner=_mut_member(st["m"]), inners=[_mut_member(x) for x in st["extra"]], hs=st["hs"], _generated=STAMP)
+
+
+def mut_member_ref(shape, x):
+    return x if shape == "plain" else (x.records[0] if shape == "grouped" else x.inner)
+
+
+def _mut_state(rng):
+    def ms():
+        return {"s": gen._rand_text(rng), "n": rng.randint(-5, 10**6), "tags": [gen._rand_text(rng, 3) for _ in range(rng.randint(0, 3))],
+                "md5": gen._hex(rng, 16) if rng.random() < 0.5 else None, "ports": [rng.randrange(65536) for _ in range(rng.randint(0, 2))]}
+
+    return {"m": ms(), "p": rng.randrange(65535), "hs": gen._rand_text(rng), "extra": [ms() for _ in range(rng.randint(0, 2))]}
+
+
+def mut_apply(shape, x, st, rng):
+    """One modification of the live object `x` and of the model state.  -> (label, new state)"""
+    import copy
+
+    new = copy.deepcopy(st)
+    m = mut_member_ref(shape, x)
+    kinds = ["member_assign_s", "member_assign_n", "list_append", "list_extend", "digest_attr", "member_assign_list"]
+    if shape == "grouped":
+        kinds += ["view_assign_s", "view_assign_n", "view_assign_list", "other_member_assign", "view_assign_other"] * 2
+    if shape == "holder":
+        kinds += ["holder_assign", "holder_list_append"] + (["holder_elem_assign", "holder_elem_list_append"] if st["extra"] else [])
+    k = rng.choice(kinds)
+    if k in ("member_assign_s", "view_assign_s"):
+        new["m"]["s"] = st["m"]["s"] + "~" + str(rng.randrange(10))
+        setattr(x if k.startswith("view") else m, "s", new["m"]["s"])
+    elif k in ("member_assign_n", "view_assign_n"):
+        new["m"]["n"] = st["m"]["n"] + rng.randint(1, 9)
+        setattr(x if k.startswith("view") else m, "n", new["m"]["n"])
+    elif k in ("member_assign_list", "view_assign_list"):
+        new["m"]["tags"] = st["m"]["tags"] + ["new" + str(rng.randrange(100))]
+        setattr(x if k.startswith("view") else m, "tags", list(new["m"]["tags"]))
+    elif k == "list_append":
+        t = "app" + str(rng.randrange(100))
+        new["m"]["tags"].append(t)
+        m.tags.append(type(m.tags).__type__(t))
+    elif k == "list_extend":
+        ps = [rng.randrange(65536) for _ in range(rng.randint(1, 2))]
+        new["m"]["ports"] += ps
+        m.ports.extend([type(m.ports).__type__(p) for p in ps])
+    elif k == "digest_attr":
+        v = gen._hex(rng, 16)
+        while v == st["m"]["md5"]:
+            v = gen._hex(rng, 16)
+        new["m"]["md5"] = v
+        m.d.md5 = v
+    elif k in ("other_member_assign", "view_assign_other"):
+        new["p"] = (st["p"] + 1) % 65536
+        setattr(x if k.startswith("view") else x.records[1], "p", new["p"])
+    elif k == "holder_assign":
+        new["hs"] = st["hs"] + "~"
+        x.hs = new["hs"]
+    elif k == "holder_list_append":
+        ms = dict(st["m"], s=st["m"]["s"] + "+", tags=list(st["m"]["tags"]), ports=list(st["m"]["ports"]))
+        new["extra"].append(ms)
+        x.inners.append(_mut_member(ms))
+    elif k == "holder_elem_assign":
+        new["extra"][0]["n"] += 1
+        x.inners[0].n = new["extra"][0]["n"]
+    elif k == "holder_elem_list_append":
+        new["extra"][0]["tags"].append("e")
+        x.inners[0].tags.append(type(x.inners[0].tags).__type__("e"))
+    return k, new
+
+
+def run_mutate(ctx, case):
+    """hash a record, modify it (through the grouped view, through a member's own reference, in place through a held list /
+    digest value, through nested records), then compare with independently rebuilt copies: equal, equal hash and found in a
+    set / dict built from the copy of the NEW state; unequal to the copy of the OLD state."""
+    import flow.record.base as base
+
+    rng = random.Random(case["s"])
+    shape = case["shape"]
+    st = _mut_state(rng)
+    x = mut_build(shape, st)
+    info0 = {"case": case}
+    for rnd in range(rng.randint(1, 4)):
+        y_old = mut_build(shape, st)
+        # the hash (and everything a cache could hold on to) is taken BEFORE the modification
+        compare(ctx, x, y_old, "equal", dict(info0, pair="before modification %d" % rnd, a=describe(x), b=describe(y_old), config="none"))
+        k, st2 = mut_apply(shape, x, st, rng)
+        y_new = mut_build(shape, st2)
+        if observe.obs(x) != observe.obs(y_new) or observe.obs(x) == observe.obs(y_old):
+            ctx.event("mutate_model_selfcheck_failed")
+            ctx.note("mutate_model_selfcheck_example", [k, observe.first_diff(observe.obs(x), observe.obs(y_new))])
+            return
+        ctx.event("mutations:" + k)
+        ctx.cell("mutate", shape, k)
+        info = dict(info0, modification=k, a=describe(x), round=rnd)
+
+        def both(label):
+            compare(ctx, x, y_new, "equal", dict(info, pair="modified record vs rebuilt copy of the new state", b=describe(y_new), config=label, key=KEY_STALE_HASH))
+            compare(ctx, x, y_old, "unequal", dict(info, pair="modified record vs rebuilt copy of the old state", b=describe(y_old), config=label,
+                                                   because="the record was modified (%s) after the copy's state" % k))
+            ctx.event("mutate_pairs_checked")
+
+        both("none")
+        Config(ctx, {"_generated"}, "scope", rng.choice(CONTAINERS), inject=rng.random() < 0.5).run(lambda: both("_generated"))
+        st = st2
+    ctx.nontrivial("mutate", shape, case["s"])
+    ctx.sample({"case": case, "final": describe(x)}, kind="mutate:" + shape)
+
+
+# ---- FLOW_RECORD_IGNORE: one worker process per environment ----------------------------------------------
+def env_script(rng):
+    """operations for verif/worker_c12.py; see there"""
+    def cont():
+        return rng.choice(CONTAINERS)
+
+    def flag():
+        return rng.random() < 0.5
+
+    ops = [["probe", "initial (environment default in force)"]]
+    blocks = []
+    blocks.append([["enter", cont(), [], flag()], ["probe", "inside an explicitly empty scope"], ["exit"], ["probe", "after the explicitly empty scope"]])
+    inner = rng.choice([[], ["n"], ["_source"]])
+    blocks.append([["enter", cont(), ["s"], flag()], ["probe", "inside scope {s}"], ["enter", cont(), inner, flag()], ["probe", "inside nested scope %s" % inner], ["exit"],
+                   ["probe", "after the nested scope"], ["exit"], ["probe", "after scope {s}"]])
+    rng.shuffle(blocks)
+    for b in blocks:
+        ops += b
+    blocks = []
+    blocks.append([["set", rng.choice(["list", "set", "tuple", "generator", "frozenset", "dict"]), []], ["probe", "after set_ignored_fields_for_comparison(<empty>)"],
+                   ["enter", cont(), ["n"], flag()], ["probe", "inside scope {n} over an explicitly empty configuration"], ["exit"],
+                   ["probe", "after scope {n}: explicitly empty configuration restored"]])
+    sub = rng.choice([["_generated"], ["_source", "s"], ["n", "_generated"]])
+    blocks.append([["set", cont(), sub], ["probe", "after set_ignored_fields_for_comparison(%s)" % sub], ["enter", cont(), [], flag()],
+                   ["probe", "inside an explicitly empty scope over %s" % sub], ["exit"], ["probe", "after the explicitly empty scope: %s restored" % sub]])
+    rng.shuffle(blocks)
+    for b in blocks:
+        ops += b
+    ops += [["set", cont(), []], ["probe", "final explicit empty configuration"]]
+    return ops
+
+
+def env_model(script, default):
+    cur, stack, out = set(default), [], []
+    for op in script:
+        if op[0] == "probe":
+            out.append(set(cur))
+        elif op[0] == "set":
+            cur = set(op[2])
+        elif op[0] == "enter":
+            stack.append(cur)
+            cur = set(op[2])
+        elif op[0] == "exit":
+            cur = stack.pop()
+    return out
+
+
+def run_envignore(ctx, case):
+    rng = random.Random(case["s"])
+    value = ENV_IGNORE[case["env"]]
+    default = set(value.split(",")) if value else set()
+    script = env_script(rng)
+    expected = env_model(script, default)
+    env = dict(os.environ)
+    env.pop("FLOW_RECORD_IGNORE", None)
+    if value is not None:
+        env["FLOW_RECORD_IGNORE"] = value
+    pp = env.get("PYTHONPATH", "")
+    if VERIF_DIR not in pp.split(os.pathsep):
+        env["PYTHONPATH"] = VERIF_DIR + (os.pathsep + pp if pp else "")
+    env.setdefault("PYTHONHASHSEED", "0")
+    try:
+        p = subprocess.run([sys.executable, "-W", "ignore", "-m", "verif.worker_c12"], input=json.dumps(script), env=env, cwd=VERIF_DIR, capture_output=True, text=True,
+                           timeout=WORKER_TIMEOUT_S)
+    except subprocess.TimeoutExpired:
+        ctx.require(False, "a C12 environment worker exceeded its %d s watchdog" % WORKER_TIMEOUT_S)
+        return
+    ctx.event("env_workers_run")
+    line = next((ln for ln in p.stdout.splitlines() if ln.startswith("C12WORKER ")), None)
+    info = {"case": case, "FLOW_RECORD_IGNORE": value, "script": script}
+    if p.returncode != 0 or line is None:
+        ctx.violation(None, "worker under FLOW_RECORD_IGNORE=%r failed (exit %s)" % (value, p.returncode), detail=dict(info, stderr=p.stderr[-2500:], stdout=p.stdout[-300:]))
+        return
+    out = json.loads(line[len("C12WORKER "):])
+    if out["env"] != value:
+        ctx.require(False, "environment was not propagated to a C12 worker: wanted %r got %r" % (value, out["env"]))
+        return
+    repo = os.path.realpath(os.environ.get("VERIF_REPO", "/repo"))
+    ctx.require(os.path.realpath(out["flow_record_file"]).startswith(repo + os.sep), "C12 worker imported flow.record from %s, not from %s" % (out["flow_record_file"], repo))
+    if out["error"] or len(out["probes"]) != len(expected):
+        ctx.violation(None, "the ignore-configuration script raised under FLOW_RECORD_IGNORE=%r" % value, detail=dict(info, error=out["error"], probes=len(out["probes"])))
+        return
+    for pr, exp in zip(out["probes"], expected):
+        ctx.ev()
+        ctx.event("env_probes_checked")
+        ctx.cell("env", repr(value), "expected-empty" if not exp else "expected-nonempty")
+        ctx.nontrivial("envignore", value, pr["label"], case["s"])
+        d = dict(info, where=pr["label"], expected_ignored=sorted(exp), observed_configuration=pr["config"], eq=pr["eq"], hash_eq=pr["hash_eq"])
+        key = None
+        if not exp and default and pr["config"] is not None and set(pr["config"]) == default and "initial" not in pr["label"]:
+            key = KEY_ENV_EMPTY
+        if pr["config"] is None:
+            ctx.state["has_global"] = False
+        elif set(pr["config"]) != exp:
+            ctx.violation(key, "the ignored-fields configuration in force is not the one the explicit calls / scopes define", detail=d)
+            continue
+        bad = [f for f in pr["eq"] if pr["eq"][f] is not (f in exp) or pr["ne"][f] is not (f not in exp) or (f in exp and pr["hash_eq"][f] is not True)]
+        if bad or pr["same_eq"] is not True or pr["same_hash_eq"] is not True:
+            ctx.violation(key, "comparisons do not follow the ignored-fields configuration in force", detail=dict(d, fields=bad, same=[pr["same_eq"], pr["same_hash_eq"]]))
+    ctx.sample({"case": case, "FLOW_RECORD_IGNORE": value, "probes": [[pr["label"], pr["config"]] for pr in out["probes"][:6]]}, kind="envignore:" + repr(value))
+
+
+# ---- equality must not depend on the identity of the generated record class -----------------------------------
+def run_classcache(ctx, case):
+    """The generated record classes live in an lru_cache: after more descriptors than it holds were created, an equal descriptor
+    (created directly, or by reading a record back from a stream) gets a NEW class.  Records of the old and of the new class
+    with the same descriptor and values must be equal and hash equal, and unequal when a value differs; also as grouped members."""
+    import io
+
+    import flow.record.base as base
+    from flow.record import GroupedRecord, RecordDescriptor, RecordStreamReader, RecordStreamWriter
+
+    rng = random.Random(case["s"])
+    tag = gen.rand_ident(rng)
+    fields = [("string", "s"), ("varint", "n"), ("string[]", "tags"), ("net.ipaddress", "ip")]
+    name, oname = "c12/cache_" + tag, "c12/cacheother_" + tag
+
+    def build():
+        d, o = RecordDescriptor(name, list(fields)), RecordDescriptor(oname, [("uint16", "p")])
+        r = d(s="v", n=7, tags=["a", "b"], ip="10.1.2.3", _generated=STAMP, _source="src")
+        return d, r, GroupedRecord("c12/cachegroup_" + tag, [d(s="g", n=1, tags=[], ip="::1", _generated=STAMP), o(p=5, _generated=STAMP)])
+
+    d_old, old, g_old = build()
+    buf = io.BytesIO()
+    w = RecordStreamWriter(buf)
+    w.write(old)
+    w.write(g_old)
+    w.flush()
+    data = buf.getvalue()
+    w.fp = None
+    try:
+        maxsize = base._generate_record_class.cache_info().maxsize or 4096
+    except Exception:  # noqa: BLE001
+        maxsize = 4096
+    n = min(maxsize, 20000) + 150
+    for i in range(n):
+        RecordDescriptor("c12/evict_%s_%d" % (tag, i), [("string", "f")])
+    ctx.event("classcache_descriptors_created", n)
+    read = list(RecordStreamReader(io.BytesIO(data)))  # descriptors arrive from the stream: classes are generated anew
+    d_new, new, g_new = build()
+    evicted = type(new) is not type(old)
+    ctx.event("classcache_new_class_for_equal_descriptor" if evicted else "classcache_class_still_cached")
+    ctx.state["classcache_evicted"] = ctx.state.get("classcache_evicted", False) or evicted
+    ctx.state["classcache_ran"] = True
+    varied = d_new(s="v", n=8, tags=["a", "b"], ip="10.1.2.3", _generated=STAMP, _source="src")
+    g_varied = GroupedRecord(g_new.name, [g_new.records[0]._replace(n=2), g_new.records[1]])
+    info = {"case": case, "descriptor": [name, fields], "new_class_for_equal_descriptor": evicted, "key": KEY_CLASS_IDENTITY}
+    pairs = [("old vs rebuilt after the class cache overflowed", old, new, "equal"), ("old vs varied rebuilt", old, varied, "unequal"),
+             ("grouped old vs rebuilt", g_old, g_new, "equal"), ("grouped old vs varied rebuilt", g_old, g_varied, "unequal")]
+    if len(read) == 2:
+        pairs += [("old vs read back from a stream", old, read[0], "equal"), ("rebuilt vs read back", new, read[0], "equal"),
+                  ("grouped old vs read back", g_old, read[1], "equal"), ("varied vs read back", varied, read[0], "unequal")]
+    else:
+        ctx.violation(None, "stream read back %d records instead of 2" % len(read), detail=info)
+    for label, a, b, exp in pairs:
+        for cfg in ("none", "_generated"):
+            def one():
+                compare(ctx, a, b, exp, dict(info, pair=label, a=describe(a), b=describe(b), config=cfg, classes_identical=type(a) is type(b),
+                                             because="a field value differs" if exp == "unequal" else None))
+            if cfg == "none":
+                one()
+            else:
+                Config(ctx, {"_generated"}, "scope", "set").run(one)
+            ctx.cell("classcache", label)
+    ctx.nontrivial("classcache", case["s"])
+    ctx.sample({"case": case, "descriptors_created": n, "new_class": evicted}, kind="classcache")
+
+
 def run_coincident(ctx, case):
     """Two different descriptors (same name, different field lists) built so that name + sum(fieldname + fieldtype) is the same
     text: their records must still be unequal.  Known mechanism: the identifier coincides."""
@@ -991,6 +1325,12 @@ def execute(ctx, case):
         run_coincident(ctx, case)
     elif k == "dictorder":
         run_dictorder(ctx, case)
+    elif k == "mutate":
+        run_mutate(ctx, case)
+    elif k == "envignore":
+        run_envignore(ctx, case)
+    elif k == "classcache":
+        run_classcache(ctx, case)
     elif k == "ipfamily":
         run_ipfamily(ctx, case)
     elif k == "scope":
@@ -1020,6 +1360,10 @@ def finish(ctx):
     ctx.require(ev.get("scope_restore_checked", 0) > 0, "the scope-restoration monitor never ran")
     ctx.require(ev.get("config_installed:scope+exception", 0) > 0, "no scope ended with an injected exception")
     ctx.require(ev.get("reflexive_checked", 0) > 0, "reflexivity was never checked")
+    ctx.require(ev.get("mutate_pairs_checked", 0) > 0, "hash / == coherence across mutation was never checked")
+    ctx.require(ev.get("mutate_model_selfcheck_failed", 0) == 0, "the mutation model disagreed with the observed record (%d cases)" % ev.get("mutate_model_selfcheck_failed", 0))
+    if ctx.state.get("classcache_ran"):
+        ctx.require(ctx.state.get("classcache_evicted", False), "re-creating an equal descriptor after overflowing the class cache did not yield a new record class")
     ctx.require(ev.get("dictorder_hash_checked", 0) > 0, "hash consistency of records differing only in dict insertion order was never checked")
     for q in ANCHORS[:6]:
         ctx.require(ctx.reach.get(q, 0) > 0, "anchor %s was never entered" % q)
